@@ -1232,6 +1232,9 @@ func (x *Exec) step(f *Frame, st *State, ins ssa.Instruction) bool {
 		m := x.value(f, st, in.Map)
 		k, _ := x.value(f, st, in.Key).(*Term)
 		v, _ := x.value(f, st, in.Value).(*Term)
+		if _, opaque := m.(*OpaqueVal); opaque {
+			break // a map outside the model (pointer-valued ...): its content is unknown whenever it is read
+		}
 		mr, ok := m.(*MapRef)
 		if !ok || k == nil || v == nil {
 			x.errorf("unsupported map update (%T)", m)
